@@ -8,6 +8,10 @@ def b_harnesses(tier):
         H.append(BHarness('V1_verner_ne%d_%d' % (lo, hi), 'c18_atomic.cpp', 'h_v1_verner', defs=['NZ_=4', 'NELO=%d' % lo, 'NEHI=%d' % hi, 'LOCN=8'], cflags=['-fopenmp'], timeout=1500, maxsteps=8000000, maxpaths=60000, split=4, strict=False,
             what='get_cross_section_verner(nz=4, ne, shell, E) on ARBITRARY table entries with the tables\' sign pattern: equals the published phfit2 fitting formula transcribed independently (same tables, same inner-shell edge OF THE ION), is >= 0, and is exactly 0 below the shell threshold',
             bound='element Z=4 tables (4x4x7x7 + 4x4x7 symbolic entries >= 0), ne in [%d,%d], shell 1..3, Ninn in {1,2}, Ntot in {2,3} enumerated, energy symbolic > 0; pow/sqrt uninterpreted with sign contracts' % (lo, hi)))
+    H.append(BHarness('V2_rates_nonneg', 'c18_rates.cpp', 'h_v2_nonneg', cflags=['-fopenmp'], timeout=900, strict=True,
+        what='VernerRecombinationRates::get_recombination_rate for each tracked ion: the returned rate is >= 0 at every temperature whatever the fit tables hold (dielectronic polynomials turn negative at high T: the final clamp catches them); no abort', bound='T in [10,1e9]; all table entries the ion reads arbitrary finite doubles; one path family per ion'))
+    H.append(BHarness('V2_rates_hhe', 'c18_rates.cpp', 'h_v2_hhe', cflags=['-fopenmp'], timeout=900, strict=True, monotone=True,
+        what='hydrogen and helium recombination rates are strictly positive and weakly decreasing in temperature (every operation of the fit is monotone: sqrt, +, *, /, pow in its base)', bound='10 <= T1 <= T2 <= 1e9; pow assumed monotone in the base for the fixed exponents 0.252, 1.748, 0.309, 1.691'))
     return H
 def a_harnesses(tier):
     n = 8 if tier == 'quick' else 16
